@@ -129,8 +129,8 @@ def _corrupt(recs, kind):
             r["macok"] = False
         elif kind == "fwd_payload" and act == "Forward":
             r["outs"][0]["pl"] = "changed"
-        elif kind == "cli_accept" and r["k"] == "e2e" and r["cli"] == "reject":
-            r["cli"] = "verified"
+        elif kind == "cli_accept" and r["k"] == "e2e" and r["cli"] == "refuse" and r["cauth"] and r["rexpected"] and not r["rmacok"]:
+            r["cli"] = "accept"
         else:
             continue
         return r
@@ -264,7 +264,16 @@ def run(ctx):
     for r in recs:
         if r["k"] != "stray":
             acts[_obs_act(r)] = acts.get(_obs_act(r), 0) + 1
-    clis = {k: sum(1 for r in recs if r["k"] == "e2e" and r["cli"] == k) for k in ("verified", "unauth", "reject", "other")}
+    clis = {k: sum(1 for r in recs if r["k"] == "e2e" and r["cli"] == k) for k in ("accept", "refuse", "other")}
+    e2er = [r for r in recs if r["k"] == "e2e" and r["delivered"]]
+    # the client's verdict comes from the return of its call; what it means is told by the response it was handed
+    # (ground truth by scionproto's SPAO code at the relay): a reply with the expected, verifying authenticator
+    # accepted by a client that authenticates / a reply with a wrong MAC refused by it
+    clis["accepted an authenticated reply"] = sum(1 for r in e2er if r["cli"] == "accept" and r["cauth"] and r["rhasauth"]
+                                                  and r["rexpected"] and r["rmacok"])
+    clis["refused a reply with a wrong MAC"] = sum(1 for r in e2er if r["cli"] == "refuse" and r["cauth"] and r["rhasauth"]
+                                                   and r["rexpected"] and not r["rmacok"])
+    clis["with log cross-check"] = sum(1 for r in recs if r["k"] == "e2e" and r.get("clilog"))
     ctx.log("driver: %d cases -> %d records (%d crafted, %d end-to-end, %d stray, %d without sentinel); "
             "listener %s; client %s" % (len(cases), len(recs), nreq, ne2e, nstray, lost, acts, clis))
     if os.environ.get("VERIF_C13_CORRUPT"):
@@ -309,11 +318,12 @@ def run(ctx):
             "TracerouteReply": acts.get("TracerouteReply", 0), "Forward": acts.get("Forward", 0),
             "authenticated reply": sum(1 for r in recs if _obs_act(r) == "ServeNtp" and r["outs"][0]["auth"] != "absent"),
             "request with wrong MAC": sum(1 for r in recs if r["k"] != "stray" and r["expected"] and not r["macok"]),
-            "client verified": clis["verified"], "client rejected": clis["reject"],
+            "client verified": clis["accepted an authenticated reply"], "client rejected": clis["refused a reply with a wrong MAC"],
             "key regime: served": sum(1 for r in krecs if r["k"] == "key" and r["outs"]),
             "key regime: request under another pair's key": sum(1 for r in krecs if r["k"] == "key" and not r["macok"]),
             "key regime: cached key reused": sum(1 for r in krecs if r["k"] == "key" and r["sn"] and not r["fetches"]),
-            "key regime: client verified": sum(1 for r in krecs if r["k"] == "e2e" and r["cli"] == "verified")}
+            "key regime: client verified": sum(1 for r in krecs if r["k"] == "e2e" and r["cli"] == "accept" and r["delivered"]
+                                               and r["rhasauth"] and r["rexpected"] and r["rmacok"])}
     missing = [k for k, v in need.items() if v == 0]
     if not ctx.violations and (aborted or lost > 24 or missing):
         raise vlib.Inconclusive("the recorded behaviour does not exercise the property (aborted=%d, cases without "
@@ -323,8 +333,8 @@ def run(ctx):
     samples = [r for r in recs if _obs_act(r) == "ServeNtp" and r["k"] == "req" and r["outs"][0]["auth"] == "ok"][:1] + \
               [r for r in recs if r["k"] == "req" and r["expected"] and not r["macok"]][:1] + \
               [r for r in recs if _obs_act(r) == "Forward"][:1] + [r for r in recs if _obs_act(r) == "EchoReply"][:1] + \
-              [r for r in recs if r["k"] == "e2e" and r["cli"] == "verified"][:1] + \
-              [r for r in recs if r["k"] == "e2e" and r["cli"] == "reject"][:1]
+              [r for r in recs if r["k"] == "e2e" and r["cli"] == "accept" and r["cauth"] and r["rmacok"]][:1] + \
+              [r for r in recs if r["k"] == "e2e" and r["cli"] == "refuse"][:1]
     ctx.cov.update(
         evaluations=len(recs), distinct_nontrivial=distinct, traces_validated_against_impl=nval,
         rule="TLC enumeration of ScionAuth.tla: listener (server | dispatcher) x underlay port x L4 kind x L4 "
@@ -346,6 +356,11 @@ def run(ctx):
         "they arrived (what the option covers is the library's definition, transcribed in ScionAuth.tla!Covered)",
         "MacSound on the response side is claimed for a client that has authentication enabled; a client without it "
         "holds no key and ignores authenticators (modelled; judged only in strict mode)",
+        "the client's verdict is read off the return of its measurement call, not off its log: accept = a measurement was "
+        "returned, refuse = the response was handed to its socket and the call returned without one before its deadline; "
+        "'the requesting client verifies' the reply's authenticator = it does not refuse the untouched reply and does refuse "
+        "it once a covered bit, the MAC or the metadata is changed; log records (auth=true, 'failed to authenticate packet') "
+        "are compared in strict mode only, when present",
         "'forwarded ... only when' is judged on every datagram that comes out; that a forward happens at all when the "
         "conditions hold is compared in strict mode only",
         "IPv4 underlay: IPv6 appears as SCION host address type only; a forward to an IPv6 SCION destination cannot "
@@ -362,5 +377,5 @@ def _brief(r):
         keep.update({k: r[k] for k in ("seq", "step", "fetches", "wfetch", "wexp", "wact")})
     keep["q"] = r["q"]
     if r["k"] == "e2e":
-        keep.update({k: r[k] for k in ("cauth", "rm", "rsub", "delivered", "rhasauth", "rexpected", "rmacok", "cli", "clierr")})
+        keep.update({k: r[k] for k in ("cauth", "rm", "rsub", "delivered", "rhasauth", "rexpected", "rmacok", "cli", "clilog", "clierr")})
     return keep
